@@ -193,7 +193,7 @@ class DepthDataNative(Contract):
     bounded_scope = ("sequences of 1-4 add_data calls mixing depth logs (numeric and text) and interval logs on one hole (unsorted, repeated, nearly equal depths; identical, nested, overlapping, "
                      "contiguous and disjoint intervals; logs added together, one by one in one session, or one by one with the file closed and re-opened before each call): after every call each vertex with a depth sits at the reference position of that depth, "
                      "each interval cell joins the positions of its from and to depths, each distinct interval is listed once and every value stays attached to its depth or interval "
-                     "(28 fixed sequences, 4 mixing interval and depth logs in one call, 4 with nearly equal depths merged under an explicit collocation distance, + 40 seeded in the quick tier, 600 in the thorough tier)")
+                     "(28 fixed sequences, 12 of them again with the last call going to a copy of the hole while the source is checked and then extended, 4 mixing interval and depth logs in one call, 4 with nearly equal depths merged under an explicit collocation distance, + 40 seeded in the quick tier, 600 in the thorough tier)")
 
     D = lambda name, depths: ("depth", name, depths)
     I_ = lambda name, ft: ("interval", name, ft)
@@ -220,6 +220,10 @@ class DepthDataNative(Contract):
                 yield {"steps": steps, "together": together}
             # the same sequences with the file closed and re-opened between the calls
             yield {"steps": steps, "together": False, "reopen": True}
+        # the last call goes to a copy of the hole: the source stays as it was (and consistent), the copy gets it all
+        for steps in self.FIXED:
+            if len(steps) >= 2:
+                yield {"steps": steps, "together": False, "twin": True}
         # text logs (lithology notes at depths) between numeric ones: they follow their depths like any value
         for steps in ([("depth-text", "t", [30.0, 40.0]), ("depth", "a", [10.0, 35.0])],
                       [("depth", "a", [20.0, 50.0]), ("depth-text", "t", [60.0, 10.0]), ("depth", "b", [5.0])],
@@ -387,6 +391,22 @@ class DepthDataNative(Contract):
                     box[0].close()
                     box[0] = Workspace(os.path.join(tmp, "dh.geoh5"), mode="r+")
                     dh = box[0].get_entity(uid)[0]
+                if case.get("twin") and n_ == len(calls) - 1:
+                    twin = dh.copy(name="twin")
+                    twin.add_data(payload, **ckw)
+                    bad = self._check(twin, collar, sv, done_d, done_i, case, "the copy, after the last call went to it") or self._check_text(twin, done_t, case, "the copy, after the last call went to it")
+                    if bad:
+                        return bad
+                    last = {next(iter(sp)) for _, sp in group}
+                    src_d = {k_: v_ for k_, v_ in done_d.items() if k_ not in last}
+                    src_i = {k_: v_ for k_, v_ in done_i.items() if k_ not in last}
+                    bad = self._check(dh, collar, sv, src_d, src_i, case, "the source hole, after data were added to its copy")
+                    if bad:
+                        return bad
+                    # ... and goes on as a hole of its own
+                    dh.add_data({"after_twin": {"depth": np.array([3.0, 33.0, 77.0]), "values": np.array([1.0, 2.0, 3.0])}})
+                    src_d["after_twin"] = {3.0: 1.0, 33.0: 2.0, 77.0: 3.0}
+                    return self._check(dh, collar, sv, src_d, src_i, case, "the source hole, extended after its copy was")
                 dh.add_data(payload, **ckw)
                 bad = self._check(dh, collar, sv, done_d, done_i, case, f"after call {n_ + 1}") or self._check_text(dh, done_t, case, f"after call {n_ + 1}")
                 if bad:
